@@ -670,7 +670,9 @@ func (st *runState) report() int {
 		if reported >= 8 {
 			break
 		}
-		if v.Index >= 0 && v.Unit.Job != "" {
+		if v.Index >= 0 && v.Unit.Job != "" && !v.Unit.Race {
+			// (reports of the Go race detector are never false positives but depend on real timing: they
+			// are reported as observed, with the detector's own report as the witness)
 			ok, n := st.confirm(v)
 			if !ok {
 				fmt.Printf("NONDETERMINISTIC property=%s key=%s reproduced %d/5 - not reported as a violation\n", spec.ID, v.Key, n)
